@@ -968,17 +968,21 @@ func isinstance(obj py.Object, classOrTuple py.Object) (py.Bool, error) {
 	switch class_tuple := classOrTuple.(type) {
 	case py.Tuple:
 		for idx := range class_tuple {
-			res, _ := isinstance(obj, class_tuple[idx])
+			res, err := isinstance(obj, class_tuple[idx])
+			if err != nil {
+				return false, err
+			}
 			if res {
 				return res, nil
 			}
 		}
 		return false, nil
 	default:
-		if classOrTuple.Type().ObjectType != py.TypeType {
+		class, ok := classOrTuple.(*py.Type)
+		if !ok {
 			return false, py.ExceptionNewf(py.TypeError, "isinstance() arg 2 must be a type or tuple of types")
 		}
-		return py.Bool(obj.Type().IsSubtype(classOrTuple.(*py.Type))), nil
+		return py.Bool(obj.Type().IsSubtype(class)), nil
 	}
 }
 
